@@ -116,28 +116,52 @@ theorem baseDisp_pass (s : State) (l : Nat) (ord : List Nat) (g : Nat) (h : Inv 
   (passLoop_ind l ord (fun s' => baseDisp s' g = baseDisp s g)
     (fun s1 items h1 hp1 => passChunk_ind l ord (fun s' => baseDisp s' g = baseDisp s g)
       (fun g0 s2 e h2 hm hp => by rw [baseDisp_evOnSignal s2 l e g0 g h2 hm]; exact hp) s1 items h1 hp1)
-    (fun _ _ hp => hp) _ s h rfl).2
+    (fun _ _ _ hp => hp) _ s h rfl).2
 
-theorem baseDisp_raiseW (s : State) (g' g : Nat) (wf : List Nat) : baseDisp (raiseW s g' wf).1 g = baseDisp s g := by
+/-- the delivery is one the KERNEL answers by resetting the application's handler: g goes directly to a user handler
+installed with SA_RESETHAND (never the case while tbox's handler is installed for g) -/
+def directReset (s : State) (g : Nat) : Op → Bool
+  | .raise g' | .raiseW g' _ =>
+    g' == g && (match (s.os g).kind with | .handler _ => true | _ => false) && (s.os g).resetHand
+  | _ => false
+
+/-- how many deliveries of a history the kernel answers by resetting g's handler (SA_RESETHAND on a direct delivery) -/
+def kresets (s : State) (g : Nat) : List Op → Nat
+  | [] => 0
+  | op :: ops => (if directReset s g op then 1 else 0) + kresets (step repaired s op) g ops
+
+theorem baseDisp_raiseW (s : State) (g' g : Nat) (wf : List Nat) (hr : directReset s g (.raiseW g' wf) = false) :
+    baseDisp (raiseW s g' wf).1 g = baseDisp s g := by
   unfold raiseW
   split
   · rfl
   · rfl
-  · rfl
+  · rename_i hh hk
+    show (if fdsOf s g = [] then upd s.os g' (kReset (s.os g')) g else (ctxOf s g).old) = baseDisp s g
+    unfold baseDisp
+    split
+    · by_cases hg : g = g'
+      · subst hg
+        simp only [upd_apply, ↓reduceIte]
+        simp only [directReset, beq_self_eq_true, hk, Bool.true_and] at hr
+        unfold kReset; simp [hr]
+      · simp only [upd_apply, hg, ↓reduceIte]
+    · rfl
   · exact baseDisp_touchCtx s g' g
 
-theorem baseDisp_raise (s : State) (g' g : Nat) : baseDisp (raise s g').1 g = baseDisp s g := baseDisp_raiseW s g' g []
+theorem baseDisp_raise (s : State) (g' g : Nat) (hr : directReset s g (.raise g') = false) :
+    baseDisp (raise s g').1 g = baseDisp s g := baseDisp_raiseW s g' g [] hr
 
 theorem baseDisp_passC (s : State) (l : Nat) (ord : List Nat) (cs : List (Option Nat)) (g : Nat) (h : Inv s) :
     baseDisp (passC repaired s l ord cs) g = baseDisp s g :=
   (passLoopC_ind l ord (fun s' => baseDisp s' g = baseDisp s g)
     (fun s1 items h1 hp1 => passChunk_ind l ord (fun s' => baseDisp s' g = baseDisp s g)
       (fun g0 s2 e h2 hm hp => by rw [baseDisp_evOnSignal s2 l e g0 g h2 hm]; exact hp) s1 items h1 hp1)
-    (fun _ _ hp => hp) _ cs s h rfl).2
+    (fun _ _ _ hp => hp) _ cs s h rfl).2
 
 /-- the only step that changes the disposition underneath tbox's handler is the user's own `sigaction` -/
-theorem baseDisp_step (s : State) (op : Op) (g : Nat) (h : Inv s) (hu : ∀ d, op ≠ .setDisp g d) :
-    baseDisp (step repaired s op) g = baseDisp s g := by
+theorem baseDisp_step (s : State) (op : Op) (g : Nat) (h : Inv s) (hu : ∀ d, op ≠ .setDisp g d)
+    (hr : directReset s g op = false) : baseDisp (step repaired s op) g = baseDisp s g := by
   cases op with
   | newEv l sc => rfl
   | init e sigs o => exact baseDisp_initEv s e sigs o g h
@@ -150,22 +174,28 @@ theorem baseDisp_step (s : State) (op : Op) (g : Nat) (h : Inv s) (hu : ∀ d, o
     unfold setDisp; split
     · rfl
     · unfold baseDisp fdsOf ctxOf; simp only [upd_apply, hne, ↓reduceIte]
-  | raise g' => exact baseDisp_raise s g' g
+  | raise g' => exact baseDisp_raise s g' g hr
   | pass l ord => exact baseDisp_pass s l ord g h
-  | raiseW g' wf => exact baseDisp_raiseW s g' g wf
+  | raiseW g' wf => exact baseDisp_raiseW s g' g wf hr
   | passC l ord cs => exact baseDisp_passC s l ord cs g h
   | setCap b => rfl
 
 theorem baseDisp_exec (s : State) (ops : List Op) (g : Nat) (h : Inv s) (hu : ∀ d, Op.setDisp g d ∉ ops)
-    (s' : State) (he : exec repaired s ops = some s') : baseDisp s' g = baseDisp s g := by
+    (hr : kresets s g ops = 0) (s' : State) (he : exec repaired s ops = some s') : baseDisp s' g = baseDisp s g := by
   induction ops generalizing s with
   | nil => simp only [exec, Option.some.injEq] at he; rw [← he]
   | cons op ops ih =>
     simp only [exec] at he
     split at he
     · rename_i hv
-      rw [ih _ (step_inv s op h hv) (fun d hd => hu d (List.mem_cons_of_mem _ hd)) he]
-      exact baseDisp_step s op g h (fun d hd => hu d (hd ▸ List.mem_cons_self))
+      have hr1 : directReset s g op = false := by
+        cases hd : directReset s g op with
+        | false => rfl
+        | true => simp [kresets, hd] at hr
+      have hr2 : kresets (step repaired s op) g ops = 0 := by
+        simp only [kresets, hr1, Bool.false_eq_true, ↓reduceIte, Nat.zero_add] at hr; exact hr
+      rw [ih _ (step_inv s op h hv) (fun d hd => hu d (List.mem_cons_of_mem _ hd)) hr2 he]
+      exact baseDisp_step s op g h (fun d hd => hu d (hd ▸ List.mem_cons_self)) hr1
     · cases he
 
 /-- nobody subscribed ⇒ no loop registered ⇒ the kernel disposition IS the base disposition -/
@@ -275,7 +305,7 @@ theorem passLoop_drains (l : Nat) (ord : List Nat) (fuel : Nat) (s : State) (h :
       split
       · rename_i hnil; right; exact hnil
       · rename_i hne
-        have h1 := setPipe_inv s l ((s.pipe l).drop 10) h hpipe
+        have h1 := setPipe_inv s l ((s.pipe l).drop 10) (upd s.head l ((hd s l + 10) % pageLen)) h hpipe
         refine ih _ (passChunk_inv _ l ord _ h1) ?_
         have hlen : ((s.pipe l).drop 10).length < n := by
           have : (s.pipe l).length ≠ 0 := by
@@ -420,33 +450,33 @@ theorem nodup_reorder (ord xs : List Nat) (ho : ord.Nodup) (hx : xs.Nodup) : (re
 theorem pass_one (s : State) (l g : Nat) (ord : List Nat) (h : Inv s) (hord : ord.Nodup) (hp : s.pipe l = [g])
     (hns : ∀ e ∈ subsOf s l g, (s.evs e).script = []) :
     (∀ e' g', cbCount (pass repaired s l ord) e' g' = cbCount s e' g' + (if g' = g ∧ e' ∈ subsOf s l g then 1 else 0)) ∧
-    Frame l { s with pipe := upd s.pipe l [] } (pass repaired s l ord) ∧ Inv (pass repaired s l ord) := by
+    Frame l { s with pipe := upd s.pipe l [], head := upd s.head l ((hd s l + 10) % pageLen) } (pass repaired s l ord) ∧ Inv (pass repaired s l ord) := by
   have hhas : s.hasPipe l = true := by
     cases hh : s.hasPipe l with
     | true => rfl
     | false => have := h.core.pipeNil l hh; rw [hp] at this; cases this
-  have h1 := setPipe_inv s l [] h hhas
-  have hd := fun e' g' => dispatch_noscript l g { s with pipe := upd s.pipe l [] } (reorder ord (subsOf s l g))
-    { s with pipe := upd s.pipe l [] } h1 (nodup_reorder _ _ hord (h.core.ndSubs l g))
+  have h1 := setPipe_inv s l [] (upd s.head l ((hd s l + 10) % pageLen)) h hhas
+  have hdn := fun e' g' => dispatch_noscript l g { s with pipe := upd s.pipe l [], head := upd s.head l ((hd s l + 10) % pageLen) } (reorder ord (subsOf s l g))
+    { s with pipe := upd s.pipe l [], head := upd s.head l ((hd s l + 10) % pageLen) } h1 (nodup_reorder _ _ hord (h.core.ndSubs l g))
     (fun e he => ⟨(mem_reorder _ _ _).1 he, hns e ((mem_reorder _ _ _).1 he)⟩)
     ⟨fun _ _ => rfl, fun h0 => h0, fun _ _ => rfl, fun _ => ⟨rfl, rfl, rfl, fun hh => hh⟩⟩ e' g'
   have hpass : pass repaired s l ord =
-      dispatch repaired { s with pipe := upd s.pipe l [] } l g (reorder ord (subsOf s l g)) := by
+      dispatch repaired { s with pipe := upd s.pipe l [], head := upd s.head l ((hd s l + 10) % pageLen) } l g (reorder ord (subsOf s l g)) := by
     unfold pass
     rw [hp]
     show passLoop repaired l ord 2 s = _
     unfold passLoop
     simp only [hhas, Bool.not_true, Bool.false_eq_true, ↓reduceIte, hp, List.drop_succ_cons, List.drop_nil,
       List.take_succ_cons, List.take_nil]
-    show passLoop repaired l ord 1 (dispatch repaired { s with pipe := upd s.pipe l [] } l g (reorder ord (subsOf s l g))) = _
-    have hnil := (hd 0 0).2.1.pipeSelf (by simp)
+    show passLoop repaired l ord 1 (dispatch repaired { s with pipe := upd s.pipe l [], head := upd s.head l ((hd s l + 10) % pageLen) } l g (reorder ord (subsOf s l g))) = _
+    have hnil := (hdn 0 0).2.1.pipeSelf (by simp)
     unfold passLoop
     split
     · rfl
     · rw [hnil]
   rw [hpass]
-  refine ⟨fun e' g' => ?_, (hd 0 0).2.1, (hd 0 0).2.2⟩
-  rw [(hd e' g').1]
+  refine ⟨fun e' g' => ?_, (hdn 0 0).2.1, (hdn 0 0).2.2⟩
+  rw [(hdn e' g').1]
   simp only [mem_reorder]
   rfl
 
@@ -534,8 +564,31 @@ def raises (s : State) (g : Nat) : Nat → State
   | 0 => s
   | n + 1 => raises (raise s g).1 g n
 
-theorem raise_os (s : State) (g : Nat) : (raise s g).1.os = s.os := by
-  unfold raise raiseW; split <;> rfl
+theorem raise_os_tbox (s : State) (g g' : Nat) : ((raise s g).1.os g').kind = .tbox ↔ (s.os g').kind = .tbox := by
+  unfold raise raiseW; split
+  · rfl
+  · rfl
+  · rename_i hh hk
+    show (upd s.os g (kReset (s.os g)) g').kind = .tbox ↔ _
+    by_cases hg : g' = g
+    · subst hg
+      simp only [upd_apply, ↓reduceIte]
+      unfold kReset; split
+      · simp [hk]
+      · rfl
+    · simp only [upd_apply, hg, ↓reduceIte]
+  · rfl
+
+/-- a delivery leaves an untouched first page untouched -/
+theorem raise_hd (s : State) (g l : Nat) (h : hd s l = 0) : hd (raise s g).1 l = 0 := by
+  unfold raise raiseW; split
+  · exact h
+  · exact h
+  · exact h
+  · show (if _ = [] then 0 else normHead s l) = 0
+    split
+    · rfl
+    · exact h
 
 theorem raise_small (s : State) (g : Nat) : (raise s g).1.small = s.small := by
   unfold raise raiseW; split <;> rfl
@@ -549,7 +602,8 @@ theorem raise_fdsOf (s : State) (g g' : Nat) : fdsOf (raise s g).1 g' = fdsOf s 
 
 theorem raise_pipe (s : State) (g l : Nat) :
     (raise s g).1.pipe l =
-      if (s.os g).kind = .tbox ∧ l ∈ fdsOf s g ∧ (s.pipe l).length < capOf s then s.pipe l ++ [g] else s.pipe l := by
+      if (s.os g).kind = .tbox ∧ l ∈ fdsOf s g ∧ hd s l + (s.pipe l).length < capOf s then s.pipe l ++ [g]
+      else s.pipe l := by
   unfold raise raiseW
   split <;> rename_i hk
   · simp [hk]
@@ -563,7 +617,7 @@ theorem raise_pipe (s : State) (g l : Nat) :
 /-- **the pipes after a burst**: starting with `k` pending copies of g in the pipe of every subscribed loop, n more
 deliveries leave `min (k + n) capacity` of them: what does not fit is dropped by the handler (EAGAIN, result ignored) -/
 theorem raises_pipe (g n : Nat) (s : State) (k : Nat)
-    (l : Nat)
+    (l : Nat) (hh : hd s l = 0)
     (hp : s.pipe l = List.replicate (if (s.os g).kind = .tbox ∧ l ∈ fdsOf s g then min k (capOf s) else 0) g) :
     (raises s g n).pipe l =
       List.replicate (if (s.os g).kind = .tbox ∧ l ∈ fdsOf s g then min (k + n) (capOf s) else 0) g := by
@@ -572,8 +626,11 @@ theorem raises_pipe (g n : Nat) (s : State) (k : Nat)
   | succ n ih =>
     show (raises (raise s g).1 g n).pipe l = _
     have hcap : capOf (raise s g).1 = capOf s := by unfold capOf; rw [raise_small]
-    have := ih (raise s g).1 (k + 1) (by
-      rw [raise_pipe, raise_os, raise_fdsOf, hcap, hp]
+    have hkk : (((raise s g).1.os g).kind = .tbox ∧ l ∈ fdsOf (raise s g).1 g) ↔ ((s.os g).kind = .tbox ∧ l ∈ fdsOf s g) := by
+      rw [raise_os_tbox, raise_fdsOf]
+    have := ih (raise s g).1 (k + 1) (raise_hd s g l hh) (by
+      simp only [hkk]
+      rw [raise_pipe, hh, hcap, hp, Nat.zero_add]
       by_cases hA : (s.os g).kind = .tbox ∧ l ∈ fdsOf s g
       · simp only [hA, and_self, ↓reduceIte, List.length_replicate, true_and]
         by_cases hlt : min k (capOf s) < capOf s
@@ -586,7 +643,8 @@ theorem raises_pipe (g n : Nat) (s : State) (k : Nat)
       · have hA' : ¬ ((s.os g).kind = .tbox ∧ l ∈ fdsOf s g ∧ (List.replicate 0 g).length < capOf s) :=
           fun hh => hA ⟨hh.1, hh.2.1⟩
         simp only [hA, ↓reduceIte, hA'])
-    rw [this, raise_os, raise_fdsOf, hcap]
+    simp only [hkk] at this
+    rw [this, hcap]
     have : k + 1 + n = k + (n + 1) := by omega
     rw [this]
 
@@ -630,7 +688,7 @@ theorem passLoopC_drains (l : Nat) (ord : List Nat) (fuel : Nat) (cs : List (Opt
       · rename_i hne
         have hn0 : ¬ nextLen cs = 0 := by omega
         simp only [hn0, ↓reduceIte]
-        have h1 := setPipe_inv s l ((s.pipe l).drop (nextLen cs)) h hpipe
+        have h1 := setPipe_inv s l ((s.pipe l).drop (nextLen cs)) (upd s.head l ((hd s l + nextLen cs) % pageLen)) h hpipe
         refine ih _ _ (passChunk_inv _ l ord _ h1) (fun c hc => hcs c (List.mem_of_mem_tail hc)) ?_
         have hlen : ((s.pipe l).drop (nextLen cs)).length < n := by
           have : (s.pipe l).length ≠ 0 := by
